@@ -313,7 +313,7 @@ func checkC14(e *Env) {
 			}
 		}
 	})
-	concCalls := e.concurrentSmoke(drv, "C14", append(e.smokePool("C14", "chk"), e.smokePool("C14", "str")...), e.pick(2, 12), e.pick(200, 1000), true)
+	concCalls := e.concurrentSmoke(drv, "C14", append(e.smokePool("C14", "chk"), e.smokePool("C14", "str")...), e.pick(2, 12), e.pick(200, 1000), nil)
 	if e.Violations() == 0 && stats.Ops < 1000 {
 		fatalInconclusive("C14: only %d calls completed", stats.Ops)
 	}
